@@ -179,8 +179,8 @@ func runSpec(l *Loaded, spec *CheckSpec, tier, only string, workers int, extra m
 				why := ""
 				if v.Kind != "vacuous" && v.Kind != "unwind" && os.Getenv("GOSYM_NO_REPLAY") == "" {
 					base := &RunConfig{Harness: h.Name, Params: map[string]int{}, MaxSteps: 4_000_000, MaxDepth: 400, MaxDecisions: 20000,
-						MaxConcretize: 300, MaxSamples: 0, MaxGoroutines: 16, MaxIdleTicks: 40, Preemptions: 1 << 30,
-						PoolNondet: h.PoolNondet, TimerPreempt: h.TimerPreempt, apiPkg: apiPkgPath, solverTimeout: 10000}
+						MaxConcretize: 300, MaxSamples: 0, MaxGoroutines: 16, MaxIdleTicks: 40, Preemptions: ts.Preemptions,
+						PoolNondet: h.PoolNondet, TimerPreempt: h.TimerPreempt, RandFixed: h.RandFixed, apiPkg: apiPkgPath, solverTimeout: 10000}
 					for k, x := range ts.Params {
 						base.Params[k] = x
 					}
